@@ -702,3 +702,5 @@ def rules(ctx):
     values(ctx)
     from . import c09 as _c09
     _c09.parent_copy(ctx, "C08.ownership")
+    from . import c01 as _c01
+    ctx.shared(_c01.layout, "C08.fock-layout")
